@@ -1094,3 +1094,14 @@ Qed.
 
 Lemma valid_format_inhabited : valid_format true 64 0 /\ valid_format false 64 64 /\ valid_format true 8 4.
 Proof. unfold valid_format, sbit. lia. Qed.
+
+Lemma roundtrip_hypotheses_inhabited :
+  representable true 64 (2 ^ 60) /\ fmt64 (IZR (2 ^ 60)) /\ ~ (Z.abs (2 ^ 60) < 2 ^ 53) /\
+  roundtrip true 64 0 (2 ^ 60) = Ok (2 ^ 60).
+Proof.
+  assert (Hrep : representable true 64 (2 ^ 60)) by (unfold representable; vm_compute; split; discriminate).
+  assert (Hfmt : fmt64 (IZR (2 ^ 60))).
+  { rewrite IZR_pow2 by lia. apply generic_format_FLT_bpow; [reflexivity|lia]. }
+  split; [assumption|]. split; [assumption|]. split; [vm_compute; discriminate|].
+  apply roundtrip_exact; try assumption; lia.
+Qed.
